@@ -444,8 +444,12 @@ func checkEval(seed uint64, r *lib.RNG) {
 
 // checkEvalOne: Eval(expr, params) against (1) the same expression compiled and run by hand as `__res__ := (expr)` with
 // the parameters added as variables and (2) when pinned, the value the expression has by construction.
+// evalStream: the stream name recorded in the inputs (and counted) by checkEvalOne; literals.go runs its pinned
+// expressions under "eval-lit" so that a replay regenerates them with its own generator.
+var evalStream = "eval"
+
 func checkEvalOne(seed uint64, expr string, params map[string]interface{}, pinned bool, pinnedWant interface{}) {
-	in := evalInput{"eval", seed, expr, nil}
+	in := evalInput{evalStream, seed, expr, nil}
 	keys := make([]string, 0, len(params))
 	for k := range params {
 		keys = append(keys, k)
@@ -460,7 +464,7 @@ func checkEvalOne(seed uint64, expr string, params map[string]interface{}, pinne
 			nbad++
 		}
 	}
-	res.Count("eval", expr+strings.Join(in.Params, ","), true)
+	res.Count(evalStream, expr+strings.Join(in.Params, ","), true)
 	if strings.Contains(expr, "%") {
 		res.Dist("eval:has-percent")
 	}
@@ -656,6 +660,16 @@ func main() {
 	for i, n := 0, f.Scale(2500, 50000); i < n; i++ {
 		evalCase(rng.U64())
 	}
+	// round 8: scripts holding literals of different types with colliding printed forms / values (literals.go)
+	for i, n := 0, f.Scale(1500, 40000); i < n; i++ {
+		litCase(rng.U64())
+	}
+	for i, n := 0, f.Scale(600, 15000); i < n; i++ {
+		evalLitCase(rng.U64())
+	}
+	for i, n := 0, f.Scale(500, 15000); i < n; i++ {
+		apiLitCase(rng.U64())
+	}
 	maxLen := f.Scale(3, 4)
 	total := 0
 	for _, si := range exhScripts {
@@ -711,6 +725,7 @@ func corpus() {
 		checkEvalOne(uint64(i), e.expr, e.params, e.pinned, e.want)
 	}
 	boolCorpus()
+	litCorpus()
 	for _, t := range []*TV{{K: "b", B: true}, {K: "b"}, {K: "ia", Kids: []*TV{tb(true), tb(false)}}, {K: "u"}, {K: "a"}, {K: "m"}, {K: "ia"}, {K: "im"}, {K: "y"}, {K: "s"}, {K: "t", I: -62135596800}, {K: "f", F: nanBits},
 		{K: "f", F: fbits(2.9)}, {K: "f", F: fbits(-2.9)}, {K: "i", I: 1<<32 + 65}, {K: "s", S: []byte("12")}, {K: "s", S: []byte("1e3")}, {K: "s", S: []byte(" 1")},
 		{K: "e", Kids: []*TV{{K: "e", Kids: []*TV{{K: "s", S: []byte("in")}}}}}, {K: "uf", I: 1}, {K: "o", I: 1}} {
@@ -769,6 +784,12 @@ func replay(path string) {
 			convCase(in.CaseSeed)
 		case in.Stream == "acc" || in.Stream == "var-acc":
 			accCase(in.CaseSeed)
+		case in.Stream == "lit":
+			litCase(in.CaseSeed)
+		case in.Stream == "eval-lit":
+			evalLitCase(in.CaseSeed)
+		case in.Stream == "api-lit" || in.Stream == "api-lit-absspec":
+			apiLitCase(in.CaseSeed)
 		case in.Stream == "api-bool" || in.Stream == "api-bool-absspec":
 			apiBoolCase(in.CaseSeed)
 		case strings.HasPrefix(in.Stream, "api-eval") || in.Stream == "eval":
